@@ -2,6 +2,7 @@ import DracoModel.Basic
 import DracoModel.Varint
 import DracoModel.Wrap
 import DracoModel.Octahedron
+import DracoModel.Quantizer
 /-
   Interface to the leaf models (entropy coder, transforms, float quantizers, metadata).
   TEMPORARY stubs until the leaf model files are merged; every function here is replaced by a
@@ -21,8 +22,10 @@ def wrapDec (t : WrapT) (pred corr : Int) : Int := Wrap.decOrig t pred corr
 def octaInit (maxQ : Int) : Option OctaT := Octa.setMaxQuantizedValue maxQ
 def octaDec (t : OctaT) (pred corr : Int × Int) : Int × Int := Octa.decOrig t pred corr
 
-/-- Dequantizer: float32 bit pattern of `float(k) * (range / float(maxQ)) + min` -/
-def dequant (_rangeBits _maxQ _minBits : Nat) (_k : Int) : Nat := 0
+/-- one component of `AttributeQuantizationTransform::InverseTransformAttribute`:
+    float32 bit pattern of `float(k) * (range / float(2^bits − 1)) + min` -/
+def dequant (rangeBits bits minBits : Nat) (k : Int) : Nat :=
+  Quant.dequantizeBits [minBits] rangeBits bits 0 k
 /-- QuantizedOctahedralCoordsToUnitVector: three float32 bit patterns -/
 def octaToUnit (q : Nat) (s t : Int) : Nat × Nat × Nat :=
   match Octa.init q with
